@@ -244,6 +244,8 @@ pub fn g1a_serde_object_contract() {
 #[cfg_attr(kani, kani::stub(blst::blst_p1_affine_on_curve, stub_p1_affine_on_curve))]
 #[cfg_attr(kani, kani::stub(blst::blst_p1_affine_in_g1, stub_p1_affine_in_g1))]
 #[cfg_attr(kani, kani::stub(blst::blst_p1_from_affine, stub_p1_from_affine))]
+#[cfg_attr(kani, kani::stub(blst::blst_p1_on_curve, stub_p1_on_curve))]
+#[cfg_attr(kani, kani::stub(blst::blst_p1_is_inf, stub_p1_is_inf))]
 pub fn g1p_from_compressed_contract() {
     let b: [u8; 48] = any();
     let checked: bool = any();
@@ -486,6 +488,8 @@ pub fn g2a_from_uncompressed_contract() {
 #[cfg_attr(kani, kani::stub(blst::blst_p2_affine_on_curve, stub_p2_affine_on_curve))]
 #[cfg_attr(kani, kani::stub(blst::blst_p2_affine_in_g2, stub_p2_affine_in_g2))]
 #[cfg_attr(kani, kani::stub(blst::blst_p2_from_affine, stub_p2_from_affine))]
+#[cfg_attr(kani, kani::stub(blst::blst_p2_on_curve, stub_p2_on_curve))]
+#[cfg_attr(kani, kani::stub(blst::blst_p2_is_inf, stub_p2_is_inf))]
 pub fn g2p_from_compressed_contract() {
     let b: [u8; 96] = any();
     let checked: bool = any();
